@@ -34,8 +34,19 @@ FAULT_TYPES = ["transform", "paint", "length", "points", "viewBox", "d", "stroke
 MANDATORY_LABELS = {"quick": ["fault:%s" % f for f in FAULT_TYPES] + ["on:shape", "on:container", "on:use", "faults:1", "faults:2+", "offender-path-rendered"]}
 MANDATORY_LABELS["thorough"] = MANDATORY_LABELS["quick"]
 
+# every transform function with every argument count from 0 to 7 (the counts a function accepts are simply no fault),
+# also with a trailing comma and with text in place of the last argument
+_TRANSFORM_ARITIES = []
+for _name in ("matrix", "translate", "translateX", "translateY", "scale", "scaleX", "scaleY", "rotate", "skew", "skewX", "skewY"):
+    for _n in range(0, 8):
+        _args = ["10", "50", "3", "2", "1", "7", "4"][:_n]
+        _TRANSFORM_ARITIES.append("%s(%s)" % (_name, ", ".join(_args)))
+        if _n >= 1:
+            _TRANSFORM_ARITIES.append("%s(%s,)" % (_name, ", ".join(_args)))
+            _TRANSFORM_ARITIES.append("translate(1,1) %s(%s)" % (_name, ", ".join(_args[:-1] + ["oops"])))
+
 BAD = {
-    "transform": ["matrix(1,2,3)", "rotate(a)", "scale(", "!!!", "translate(1,,2)", "rotate()", "matrix(a,b,c,d,e,f)", "skewX()", "translate()", "scale()", "matrix()", "rotate(30", "translatex()", "skew()", "scaley(x)", "matrix(1 0 0 1 0)", "rotate(1e999)"],
+    "transform": _TRANSFORM_ARITIES + ["matrix(1,2,3)", "rotate(a)", "scale(", "!!!", "translate(1,,2)", "rotate()", "matrix(a,b,c,d,e,f)", "skewX()", "translate()", "scale()", "matrix()", "rotate(30", "translatex()", "skew()", "scaley(x)", "matrix(1 0 0 1 0)", "rotate(1e999)"],
     "paint": ["rgb(1.5,2,3)", "#12", "rgb(", "url(#nope)", "notacolor", "#ggg", "rgb(1,2)", "hsl(1,2,3)", "rgb(1,2,3,4,5)", "#", "rgba(300,-1,0,x)", "hsl(a,50%,50%)", ""],
     "length": ["abc", "1e", "--5", "5 5", "1e999", "", "12qq", "NaN", "inf", "-", ".", "1..2", "5%%"],
     "points": ["1,2 3", "a", "1,2,,3", "", "1 2 3 4 5", "1e999,0 2,2", ",,,", "1,2;3,4"],
@@ -116,7 +127,7 @@ def decode(d):
 
 
 def parts(tier):
-    n = 3000 if tier == "quick" else 8000
+    n = 5000 if tier == "quick" else 8000
     out = [core.Part("documents", "sampled", lambda: gen.cases(decode, 1024), budget=n)]
     if tier == "thorough":
         out.append(core.Part("atheris", "fuzz", {"corpus": "corpus/C10", "dict": "corpus/C10.dict", "runs": 40000, "max_len": 400}))
